@@ -65,6 +65,7 @@ struct Args {
     thorough: bool,
     one: Option<String>,
     max_execs: usize,
+    only_site: Vec<u32>,
     budget_s: f64,
     noise: u32,
     reps: usize,
@@ -88,6 +89,7 @@ fn parse_args() -> Args {
         thorough: false,
         one: None,
         max_execs: usize::MAX,
+        only_site: vec![],
         budget_s: 1e9,
         noise: 0,
         reps: 1,
@@ -110,6 +112,18 @@ fn parse_args() -> Args {
             "--skip-plan" => a.skip_plan = val(i).parse().unwrap(),
             "--one" => a.one = Some(val(i)),
             "--max-execs" => a.max_execs = val(i).parse().unwrap(),
+            "--only-site" => {
+                // directed amplification: plans only for the named hook sites
+                for n in val(i).split(',') {
+                    match may::queue::verif::site::NAMES.iter().find(|(name, _)| *name == n) {
+                        Some((_, id)) => a.only_site.push(*id),
+                        None => {
+                            eprintln!("unknown site {}", n);
+                            std::process::exit(2);
+                        }
+                    }
+                }
+            }
             "--budget-s" => a.budget_s = val(i).parse().unwrap(),
             "--noise" => a.noise = val(i).parse().unwrap(),
             "--reps" => a.reps = val(i).parse().unwrap(),
@@ -391,6 +405,9 @@ fn main() {
                     continue;
                 }
                 if !def.only_sites.is_empty() && !def.only_sites.contains(&s) {
+                    continue;
+                }
+                if !a.only_site.is_empty() && !a.only_site.contains(&s) {
                     continue;
                 }
                 reached.push(s);
